@@ -19,7 +19,7 @@ ASSUMPTIONS = [
     'proved ingredients (extra): guess_type is total and passes typed values through; main() applies file < environment < -r and installs the merged dict as parser defaults before the final parse (structural)',
 ]
 MANIFEST = {
-    'text': 'Bounded exploration of the real main(): for each option and every subset of the five sources the value that reaches the command handler / backend constructor equals what the precedence order names, with identical coercion for every source; mutually exclusive options are rejected. The type-guessing function and the order of the merging steps are additionally proved.',
+    'text': 'Bounded exploration of the real main(): for each option and every subset of the five sources the value that reaches the command handler / backend constructor equals what the precedence order names, with identical coercion for every source; mutually exclusive options are rejected. Additionally proved (deductively, all inputs): the type-guessing function, the order of the merging steps of main() and its file-option loading region (only a missing DEFAULT file is skipped; an unusable file option fails the run), Config.apply_known (option table, exclusive pairs, no-cache), parser_for_backend (CLI text converted like environment/file text), _instantiate_backend (a value is passed unless no source supplied it, None included) and parse_repository.',
     'note': 'argparse is not modelled, so this property is claimed at exploration level only; complete over source subsets, sampled over values.',
     'technique': 'bounded contract check of the real main() (complete over source subsets) plus contract-based deductive verification of the contract-shaped ingredients',
     'design_ref': 'DESIGN.md 6/C19',
